@@ -689,7 +689,8 @@ def desc_probe(payload):
             ns[_n] = getattr(_io, _n)
         try:
             exec(src, ns)
-            sd = SynthDef('probe', ns['f'])
+            lags = payload.get('lags', {}).get(str(len(res)))
+            sd = SynthDef('probe', ns['f'], lags) if lags else SynthDef('probe', ns['f'])
             raw = bytes(sd.as_bytes())
             d = scgf.parse(raw)[0]
             desc = SynthDesc._read_stream(io.BytesIO(raw))[0]
@@ -1117,7 +1118,12 @@ def rate_constraint_probe(payload):
                 continue
             if not params or len(params) > 12:
                 continue
-            for k, kind, wrap in [(k, kd, w) for k in range(len(params)) for kd in ('sig', 'const') for w in (False, True)]:
+            numdef = [j for j, q in enumerate(params) if isinstance(q.default, (int, float)) and not isinstance(q.default, bool)]
+            forms = [(k, kd, w, None) for k in range(len(params)) for kd in ('sig', 'const') for w in (False, True)]
+            # pair forms: argument k gets the other rate while ONE other numeric default j gets a signal of the
+            # unit's own rate (a second constraint may hide the first: BufWr needs an audio phase)
+            forms += [(k, 'sig', w, j) for k in range(len(params)) for j in numdef if j != k for w in (False, True)]
+            for k, kind, wrap, pj in forms:
                 if kind == 'const' and (params[k].default is not params[k].empty or ctor != 'ar'):
                     continue          # a number where an audio-rate unit requires a signal (no default)
                 if wrap and params[k].default is not params[k].empty:
@@ -1131,6 +1137,8 @@ def rate_constraint_probe(payload):
                         if j == k:
                             bad = getattr(WhiteNoise, other)() if kind == 'sig' else 0.25
                             args.append([own(), bad] if wrap else bad)
+                        elif pj is not None and j == pj:
+                            args.append(own())
                         elif p.default is not p.empty:
                             args.append(p.default)
                         else:
@@ -1142,6 +1150,8 @@ def rate_constraint_probe(payload):
                     if isinstance(y, ugn.UGen) and y.rate in ('audio', 'control'):
                         (Out.ar if y.rate == 'audio' else Out.kr)(0, y)
                 tag = (k if kind == 'sig' else f'{k}c') if not wrap else (f'{k}l' if kind == 'sig' else f'{k}lc')
+                if pj is not None:
+                    tag = f'{tag}p{pj}'
                 try:
                     sd = SynthDef('rc', f)
                     bytes(sd.as_bytes())
@@ -1258,6 +1268,20 @@ def mix_probe(payload):
                 res.append([f'{cname}.{meth}', problem or 'ok'])
             except Exception as ex:
                 res.append([f'{cname}.{meth}', f'EXC {type(ex).__name__}: {ex}'[:120]])
+    # LocalIn: a default list shorter than the channel count wraps cyclically
+    try:
+        from sc3.synth.ugens.inout import LocalIn, LocalOut
+
+        def gl():
+            x = LocalIn.ar(4, [0.125, 0.25])
+            LocalOut.ar(x)
+            Out.ar(0, x)
+        d = scgf.parse(bytes(SynthDef('li', gl).as_bytes()))[0]
+        li = [u for u in d['ugens'] if u['cls'] == 'LocalIn'][0]
+        got = [fmt_frac(d['consts'][k]) if a < 0 else 'u' for a, k in li['ins']]
+        res.append(['localin_defaults', 'ok' if got == ['1/8', '1/4', '1/8', '1/4'] else f'LocalIn.ar(4, [1/8, 1/4]) is wired to {got}, expected the defaults repeated cyclically'])
+    except Exception as ex:
+        res.append(['localin_defaults', f'EXC {type(ex).__name__}: {ex}'[:120]])
     # SoundIn: buses given as controls are separate one-channel inputs, consecutive numbers one multichannel input
     from sc3.synth.ugens.inout import SoundIn
     ns = {'Out': Out, 'SoundIn': SoundIn}
